@@ -89,7 +89,7 @@ def check_layout(ctx, facts):
                     else:
                         ctx.violate("C06.1", fn, "offset-step-differs-from-recovery-stride", b.relfile, site.line,
                                     "the allocator advances the file offset by %s; recovery strides by DEFAULT_BLOCK_SIZE" % show(e[2])[:60])
-    ctx.floor("C06.1", "allocator layout sites", n, 4)
+    ctx.floor("C06.1", "allocator layout sites", n, 2)
 
 
 def check_scan(ctx, facts, rid="C06.2"):
@@ -151,7 +151,7 @@ def check_scan(ctx, facts, rid="C06.2"):
         ctx.ok(rid, F, "the unit loop has %d `advance by one unit` sites (skip + normal step)" % n_skip, b.relfile, b.term(header.bb)["line"])
     if n_bad == 0:
         ctx.ok(rid, F, "no exit from the unit loop other than its condition", b.relfile, b.term(header.bb)["line"])
-    ctx.floor(rid, "blocks in the unit loop", len(loop), 50)
+    ctx.floor(rid, "blocks in the unit loop", len(loop), 10)
 
 
 def check_entry_scan_bound(ctx, facts, rid="C06.3"):
@@ -267,7 +267,7 @@ def check_scan_stride(ctx, facts, rid="C06.5"):
             ctx.violate(rid, F, "recovery-stride", b.relfile, site.line,
                         "the unit loop advances its offset by %s, which is neither one unit nor a recognised round-up of the block's used bytes to whole units: for some fill level the scan "
                         "skips a unit that was handed out (its acknowledged entries are gone after the restart) or lands inside a payload" % show(e, 8)[:100])
-    ctx.floor(rid, "advances of the unit loop offset", n, 3)
+    ctx.floor(rid, "advances of the unit loop offset", n, 1)
 
 
 def check_read_side_ignores_limit(ctx, facts):
@@ -290,7 +290,7 @@ def check_read_side_ignores_limit(ctx, facts):
             ctx.violate("C06.4", F, "read-side-depends-on-block-limit", b.relfile, site.line,
                         "%s loads Block.limit: recovery re-creates every block with limit = DEFAULT_BLOCK_SIZE while the allocator hands out larger blocks for large entries, so this "
                         "code treats the same on-disk entry differently before and after a restart" % F)
-    ctx.floor("C06.4", "read/recovery-side bodies inspected", n, 5)
+    ctx.floor("C06.4", "read/recovery-side bodies inspected", n, 3)
     ctx.ok("C06.4", "read side", "bodies on the read/recovery side inspected for loads of Block.limit: %d" % n, None, None)
 
 
